@@ -130,7 +130,13 @@ def build_programs(run):
     for i, lam in enumerate(lams):
         p = progen.Program(progen.PRELUDE + 'f = ' + lam + '\n', [], ['lambda_entity'], 'lambdaent')
         items.append((p, [cfgs[(i * 3) % 16], cfgs[(i * 3 + 7) % 16]], True, True))
-    info['counts'] = {'lambda_entities': len(lams), 'assert_feature': len(asserts), 'unusual_forms': len([1 for it in items if it[0].kind == 'unusual']) - n_un, 'unusual_random': n_un,
+    # 6. closure entities (free variables: the factory wrapper emits its dummy closure definitions)
+    clos = ['def make():\n    k = 3\n    j = [1]\n    def f(a, b, c, l):\n        x = a + k\n        for i in j:\n            x += i\n        return x\n    return f\nf = make()\n',
+            'def make(k, *rest):\n    def f(a, b, c, l):\n        """doc"""\n        if a > k:\n            return rest\n        return (lambda: k)()\n    return f\nf = make(1, 2)\n']
+    for i, src in enumerate(clos):
+        p = progen.Program(progen.PRELUDE + src, [], ['closure_entity'], 'closureent')
+        items.append((p, [cfgs[(i * 5) % 16], cfgs[(i * 5 + 9) % 16]], True, True))
+    info['counts'] = {'closure_entities': len(clos), 'lambda_entities': len(lams), 'assert_feature': len(asserts), 'unusual_forms': len([1 for it in items if it[0].kind == 'unusual']) - n_un, 'unusual_random': n_un,
                       'skeletons': len(sk), 'random': len(rp)}
     return items, info
 
@@ -304,8 +310,9 @@ def evaluate(run, recs, sources, label):
             reasons.add(CLS_WALRUS if erase_cache[t[0]] else CLS_NONASSIGNABLE)
         fkinds = set(w.split(':')[0] for w, _ in r['fails'])
         explained = fkinds <= set(CTX_EXPLAINED)
-        # a statement list stored in an expression field additionally makes the tree unserialisable
-        explained_append = fkinds <= set(CTX_EXPLAINED) | {'final-tree-not-serialisable'}
+        # a statement (list) stored in an expression field additionally makes the tree unserialisable or, when ast.unparse
+        # happens to print it as valid text, trips create_source_map's lock-step walk ("Inconsistent ASTs detected")
+        explained_append = fkinds <= set(CTX_EXPLAINED) | {'final-tree-not-serialisable', 'inconsistent-asts-detected'}
         cls = None
         sc = []
         if explained_append and 'L' in r['cfg'][1:] and sources.get(r['prog']):
@@ -341,7 +348,8 @@ def evaluate(run, recs, sources, label):
     return {'stage': dict(stage), 'stats': dict(stats), 'errors': {'%s|%s' % k: v for k, v in errkinds.most_common(12)},
             'node_kinds_in_output': dict(kinds.most_common(40)), 'ctxok_trees': len(tree_recs), 'ctxok_rejected': nrej,
             'template_calls_distinct': len(lines), 'template_sites_hit': len([s for s in site_hits if not str(s).startswith('unknown')]),
-            'template_sites_hit_list': sorted(str(s) for s in site_hits), 'args_sharing_sites': {str(k): v for k, v in args_sites.items()}}
+            'template_sites_hit_list': sorted(str(s) for s in site_hits),
+            'template_sites_not_reached_by_conversions': sorted(set(x[0] for x in sites) - set(str(s) for s in site_hits)), 'args_sharing_sites': {str(k): v for k, v in args_sites.items()}}
 
 
 def generated_correspondence(run):
